@@ -2616,8 +2616,10 @@ func (r *repoT) GobDecode(b []byte) error {
 }
 
 func (r *repoT) GobEncode() ([]byte, error) {
-	r.RLock()
-	r.RUnlock()
+	// No r.RLock() here: saveToStore, the caller, encodes while it holds r.RLock(), and
+	// sync.RWMutex read locks must not be taken recursively -- with a writer waiting in
+	// between (r.Lock() in newVersion, commit, ...) the second RLock waits for the writer
+	// and the writer waits for the first RLock, for ever.
 
 	var buf bytes.Buffer
 	enc := gob.NewEncoder(&buf)
